@@ -61,6 +61,10 @@ def cases(tier, seed):
                         continue
                     for cont in (False, True):
                         out.append({"kind": "inject", "site": site, "solver": solver, "system": sysk, "step": sname, "continue": cont, "rep": r})
+                if site == "statics.newton":
+                    # the very first solve (load step 0, the unloaded state) fails: nothing converged, nothing may be returned
+                    for cont in (False, True):
+                        out.append({"kind": "inject", "site": site, "solver": solver, "system": sysk, "step": "zero", "continue": cont, "rep": r})
         for solver in ("Moreau", "Rattle", "BackwardEuler", "DualStormerVerlet", "Newton"):
             for how in ("newton_max_iter", "fixed_point_max_iter"):
                 for cont in (False, True):
@@ -247,7 +251,7 @@ def run_case(spec, ctx):
 
     if kind == "inject":
         site, solver, sysk = spec["site"], spec["solver"], spec["system"]
-        k = STEPS[spec["step"]]
+        k = STEPS.get(spec["step"], -1)
         cont = spec["continue"]
         opts = SolverOptions(continue_with_unconverged=cont)
         with gen.quiet():
@@ -261,7 +265,7 @@ def run_case(spec, ctx):
                 vh.reset()
                 if solver == "Newton":
                     vh.plan[site] = {k + 1 if k + 1 <= n_load else n_load}   # load step 0 is the unloaded state
-                    kk = min(k + 1, n_load)
+                    kk = min(k + 1, n_load)                                  # (step "zero": k = -1, i.e. load step 0 itself)
                     res = _run(ctx, lambda: sv.Newton(S, n_load_steps=n_load, verbose=False, options=opts), {**det, "load_step": kk},
                                kk / n_load, 1.0 / n_load, cont, n_load + 1, injected_site=site)
                 else:
